@@ -41,7 +41,7 @@ def announced_kinds():
     return [sensor[1 + 3 * i] for i in range(sensor[0])]
 
 
-async def _run(ans, mixers_present, provides, versions=False):
+async def _run(ans, mixers_present, provides, versions=False, again=None):
     from pyplumio.devices.ecomax import EcoMAX
     from pyplumio.frames.messages import SensorDataMessage
     from pyplumio.structures.network_info import NetworkInfo
@@ -57,6 +57,7 @@ async def _run(ans, mixers_present, provides, versions=False):
     extra = {code: 1 for code in announced_kinds()} if versions else {}
 
     async def controller():
+        nonlocal ans
         while True:
             fr = await q.get()
             code = int(fr.frame_type)
@@ -71,6 +72,21 @@ async def _run(ans, mixers_present, provides, versions=False):
     dev.handle_frame(SensorDataMessage(message=bytearray(sensor if versions else b"\x00" + rest)))
     await asyncio.wait_for(setup, timeout=1000)
     loaded = loop.time() - t0
+    second = None
+    if again is not None:
+        # set-up runs AGAIN on the same device object (what its outcome is must depend on what the controller answers now)
+        for _ in range(5):
+            await asyncio.sleep(0)
+        ans = again
+        counts.clear()
+        extra.clear()
+        t1 = loop.time()
+        await asyncio.wait_for(dev.async_setup(), timeout=1000)
+        for _ in range(5):
+            await asyncio.sleep(0)
+        second = {"errors": [int(e) for e in dev.data.get("frame_errors", [])], "loaded_s": loop.time() - t1,
+                  "tx": [[code, counts.get(code, 0)] for code, _ in provides], "data": [code for code, name in provides if name in dev.data],
+                  "loaded": bool(dev.data.get("loaded"))}
     for _ in range(5):
         await asyncio.sleep(0)
     errors = [int(e) for e in dev.data.get("frame_errors", [])]
@@ -80,6 +96,8 @@ async def _run(ans, mixers_present, provides, versions=False):
     for t in list(dev.tasks):
         t.cancel()
     await asyncio.gather(ctl, *dev.tasks, return_exceptions=True)
+    if second is not None:
+        return second
     return {"errors": errors, "loaded_s": loaded, "tx": [[code, counts.get(code, 0) - extra.get(code, 0)] for code, _ in provides], "data": data,
             "loaded": bool(is_loaded)}
 
@@ -154,7 +172,7 @@ class C16(Prop):
     id = "C16"
     prop_file = "Props/C16.v"
     rule = ("scripted controller under the virtual-time loop answers set-up kind k with a real captured response frame on attempt a_k in "
-            "{1,2,3,never}: quick = all 2^8 subsets answered on attempt 1 + random full patterns, with and without mixers, + `via-protocol`: the set-up started by the real AsyncProtocol at first contact with the sensor data arriving 0..60 s later and requests / answers travelling as frames on the wire; thorough = more of "
+            "{1,2,3,never}: quick = all 2^8 subsets answered on attempt 1 + random full patterns, with and without mixers, + `repeat`: a second set-up of the same device object after a first one that left kinds unanswered, judged by what the controller answers now (kinds whose data the first run obtained count as served at once); + `via-protocol`: the set-up started by the real AsyncProtocol at first contact with the sensor data arriving 0..60 s later and requests / answers travelling as frames on the wire; thorough = more of "
             "the 4^8 patterns; observed: loaded time, frame_errors, transmissions per kind, data present.  Non-trivial = at least one kind "
             "unanswered or answered late; distinct by (pattern, mixers).")
     assumptions = ["time is the loop's virtual clock: `within retries x timeout` is checked as loaded_time <= 9.0 virtual seconds",
@@ -173,6 +191,12 @@ class C16(Prop):
         for _ in range(300):
             cases.append({"kind": "pattern", "ans": [[k, rng.choice([[], [1], [2], [3]])] for k in kinds], "mixers": rng.random() < 0.5})
         # the sensor data that opens set-up carries its genuine frame-version table (several set-up kinds are announced in it)
+        # a second set-up of the SAME device object, after a first one that left some kinds unanswered
+        for _ in range(60):
+            # (the product information is answered in the first run: a parameters response of the first run that is still waiting for
+            #  it would be completed by the second run's answer, which mixes the two runs' answers)
+            first = [[k, (rng.choice([[1], [2]]) if k == 57 else rng.choice([[], [], [1], [2]]))] for k in kinds]
+            cases.append({"kind": "repeat", "first": first, "ans": [[k, rng.choice([[], [1], [1], [2], [3]])] for k in kinds], "mixers": False})
         # set-up started by the real protocol at first contact, the sensor data arriving only later (up to a minute)
         for _ in range(40):
             cases.append({"kind": "via-protocol", "ans": [[k, rng.choice([[], [], [1], [2], [3]])] for k in kinds],
@@ -192,20 +216,33 @@ class C16(Prop):
             r = vloop.run(_run_proto, ans, c["mixers"], provides, c["delay"])
             # requests reach the wire with the latency of the line (<= 0.25 s) and so do the answers: the period an answer falls in
             return [r["errors"], int((r["loaded_s"] + 1e-9) // 3.0), r["tx"], r["data"], r["loaded"]]
+        if c["kind"] == "repeat":
+            first = {k: (a[0] if a else None) for k, a in c["first"]}
+            r = vloop.run(_run, first, c["mixers"], provides, False, ans)
+            return [r["errors"], int(round(r["loaded_s"] / 3.0)), r["tx"], r["data"], r["loaded"]]
         r = vloop.run(_run, ans, c["mixers"], provides, c.get("versions", False))
         assert abs(r["loaded_s"] / 3.0 - round(r["loaded_s"] / 3.0)) < 1e-9, r
         return [r["errors"], int(round(r["loaded_s"] / 3.0)), r["tx"], r["data"], r["loaded"]]
 
+    @staticmethod
+    def _ans(c):
+        """the answers the model is run on: in a repeated set-up a request whose data the first run obtained is served at once
+        (request() returns as soon as the data are available), every other kind is answered as the controller answers NOW"""
+        if c["kind"] != "repeat":
+            return c["ans"]
+        have = set(model.call("timeline", [c["mixers"], c["first"], 3])[3])
+        return [[k, ([1] if k in have else a)] for k, a in c["ans"]]
+
     def model_many(self, cases):
-        res = model.call_many("timeline", [[c["mixers"], c["ans"], 3] for c in cases])
+        res = model.call_many("timeline", [[c["mixers"], self._ans(c), 3] for c in cases])
         return [[r[0], r[1], r[2], r[3], True] for r in res]
 
     def obs(self, c, b):
-        unanswered = [k for k, a in c["ans"] if not a]
+        unanswered = [k for k, a in self._ans(c) if not a]
         return [sorted(b[0]), b[1], [t for t in b[2] if t[0] in unanswered], sorted(b[3]), b[4]]
 
     def spec_many(self, cases, behaviours):
-        res = model.call_many("P16", [[c["mixers"], c["ans"], 3, [bytes(b[0]), b[1], b[2], bytes(b[3])]] for c, b in zip(cases, behaviours)])
+        res = model.call_many("P16", [[c["mixers"], self._ans(c), 3, [bytes(b[0]), b[1], b[2], bytes(b[3])]] for c, b in zip(cases, behaviours)])
         return [bool(r) and b[4] for r, b in zip(res, behaviours)]
 
     def nontrivial_key(self, c, mb):
